@@ -122,7 +122,7 @@ func vpFixedPoint(rec any) (bool, bool) {
 		return true, false
 	}
 	got := vpCollect(vpOneShot(w.b), 3)
-	return true, len(got) == 1 && !got[0].err && vpSameBED(got[0].b, b)
+	return true, len(got) == 1 && !got[0].err && vpSameBED(got[0].b, vpFirstN(b))
 }
 
 func vpOneRecord(i, extra int) []byte {
